@@ -9,11 +9,15 @@ leaf truth taken from poetry's own `validate` on the environment `E`, and `valid
 `M.vars m` lists the variable names at the leaves.
 
 Staging.  `only`, `exclude`, `reduce_by_python_constraint` rebuild their result with `MultiMarker.of`,
-`MarkerUnion.of`, `intersection`, `intersect`; what these four do to truth and to the variables mentioned is
-C07's subject.  The theorems below are proved by structural induction over the projection functions
-themselves and take the simplifier facts as explicit hypotheses (`OfSound`, `OfVars`, `InterSound`,
-`ReduceCtx`), each stated for every fuel and recursion stack; the statements without those hypotheses are
-kept as `C17_…_full_statement`.
+`MarkerUnion.of`, `intersection`, `intersect`, whose soundness is C07's (`Proofs/MarkerAlgSound.lean`,
+every fuel and recursion stack).  That development is relative to a leaf specification
+`LeafSpec ev G` (marker equality and leaf merging respect the leaf truth `ev` on leaves satisfying the
+invariant `G`; the concrete instance for `evalLeaf E` is C06/C07's subject) — the theorems below take the
+same `S : LeafSpec ev G` and `M.Good G m`, so they compose with C07 without further hypotheses.  What
+remains explicit: `OfVars` (the two `of` constructors mention no new variable) for `only_mentions`, and
+`ReduceCtx` (C11's `pyConstraint_exact` / `createNested_exact` through `parse_marker`, C12's `allows_all` /
+`allows_any` soundness at the interpreter) for `reduce_exact`.  The statements without hypotheses are kept as
+`C17_…_full_statement`.
 -/
 import PoetryVerif.Proofs.MarkerProj
 
@@ -40,19 +44,10 @@ theorem validate_eq (E : Env) (m : M) (h : Evaluates E m) :
   obtain ⟨b, hb⟩ := h l hl
   cases b <;> simp [evalLeaf, hb]
 
-/-- C07: `MultiMarker.of` is a conjunction, `MarkerUnion.of` a disjunction (every fuel, every stack) -/
-def OfSound (ev : Leaf → Bool) : Prop :=
-  (∀ fuel stk ms r, multiOf fuel stk ms = .ok r → M.sem ev r = M.semAll ev ms) ∧
-  (∀ fuel stk ms r, unionOf fuel stk ms = .ok r → M.sem ev r = M.semAny ev ms)
-
 /-- `MultiMarker.of` / `MarkerUnion.of` mention no variable that their operands do not mention -/
 def OfVars : Prop :=
   (∀ fuel stk ms r, multiOf fuel stk ms = .ok r → ∀ n ∈ M.vars r, n ∈ M.varsList ms) ∧
   (∀ fuel stk ms r, unionOf fuel stk ms = .ok r → ∀ n ∈ M.vars r, n ∈ M.varsList ms)
-
-/-- C07: `intersection(*markers)` is a conjunction -/
-def InterSound (ev : Leaf → Bool) : Prop :=
-  ∀ fuel stk ms r, intersectionF fuel stk ms = .ok r → M.sem ev r = M.semAll ev ms
 
 /-! ## example objects -/
 
@@ -76,19 +71,22 @@ theorem only_mentions_partial (hV : OfVars) (S : List String) (m r : M) (h : M.o
   only_mentions_aux S hV.1 hV.2 m r h
 
 /-- **`only` only weakens**: wherever the marker holds, its projection holds — for conjunctions *and*
-disjunctions, foreign leaves being replaced by the universal marker (given C07's `of` soundness). -/
-theorem only_weakens_partial (ev : Leaf → Bool) (hS : OfSound ev) (S : List String) (m r : M)
-    (h : M.only S m = .ok r) (hm : M.sem ev m = true) : M.sem ev r = true :=
-  only_weakens_aux ev S hS.1 hS.2 m r h hm
+disjunctions, foreign leaves being replaced by the universal marker; the projection keeps the leaf
+invariant. -/
+theorem only_weakens {ev : Leaf → Bool} {G : Leaf → Prop} (S : LeafSpec ev G) (names : List String) (m r : M)
+    (hg : M.Good G m) (h : M.only names m = .ok r) :
+    M.Good G r ∧ (M.sem ev m = true → M.sem ev r = true) :=
+  only_weakens_aux S names m r hg h
 
 /-- the same through poetry's own `validate`, on an environment where the leaves evaluate -/
-theorem only_weakens_validate_partial (E : Env) (hS : OfSound (evalLeaf E)) (S : List String) (m r : M)
-    (h : M.only S m = .ok r) (hem : Evaluates E m) (her : Evaluates E r)
+theorem only_weakens_validate_partial (E : Env) {G : Leaf → Prop} (S : LeafSpec (evalLeaf E) G)
+    (names : List String) (m r : M) (hg : M.Good G m)
+    (h : M.only names m = .ok r) (hem : Evaluates E m) (her : Evaluates E r)
     (hm : M.validate E m = .ok true) : M.validate E r = .ok true := by
   rw [validate_eq E m hem] at hm
   rw [validate_eq E r her]
   injection hm with hm
-  rw [only_weakens_partial (evalLeaf E) hS S m r h hm]
+  rw [(only_weakens S names m r hg h).2 hm]
 
 /-- a foreign leaf becomes the universal marker: strictly weaker on `exEnv`, where `sys_platform == "linux"`
 is false; a requested leaf is kept -/
@@ -97,6 +95,9 @@ example : M.only ["python_version"] (.leaf lSys) = .ok .any ∧ M.only ["python_
     lSys.validate exEnv = .ok false ∧ lPy.validate exEnv = .ok true ∧
     M.vars (.multi [.leaf lPy, .leaf lSys]) = ["python_version", "sys_platform"] := by
   refine ⟨rfl, rfl, rfl, by rfl, by rfl, rfl⟩
+
+/-- the leaf invariant is satisfiable: with `G := fun _ => True` every marker is good -/
+example : M.Good (fun _ => True) (.multi [.leaf lPy, .union [.leaf lSys, .leaf lExtra]]) := M.good_trivial _
 
 def C17_only_mentions_full_statement : Prop :=
   ∀ (text : String) (S : List String) (m r : M), parseMarker text = .ok m → M.only S m = .ok r →
@@ -109,16 +110,17 @@ def C17_only_weakens_full_statement : Prop :=
 /-! ## `exclude`, `without_extras` -/
 
 /-- **removing the clauses about one variable from a conjunction of single-variable clauses leaves exactly
-the conjunction of the others** (given C07's `intersection` soundness). -/
-theorem exclude_conj_partial (ev : Leaf → Bool) (hI : InterSound ev) (x : String) (ms : List M)
-    (hl : allLeaves ms = true) (r : M) (h : M.exclude x (.multi ms) = .ok r) :
-    M.sem ev r = semAllExcept ev x ms :=
-  exclude_conj_aux ev x hI ms hl r h
+the conjunction of the others**. -/
+theorem exclude_conj {ev : Leaf → Bool} {G : Leaf → Prop} (S : LeafSpec ev G) (x : String) (ms : List M)
+    (hl : allLeaves ms = true) (hg : M.GoodAll G ms) (r : M) (h : M.exclude x (.multi ms) = .ok r) :
+    M.Good G r ∧ M.sem ev r = semAllExcept ev x ms :=
+  exclude_conj_aux S x ms hl hg r h
 
 /-- the clauses that survive are computed without the simplifier: exactly the members on other variables -/
 theorem exclude_members (ev : Leaf → Bool) (x : String) (ms : List M) (hl : allLeaves ms = true) :
-    ∃ xs, M.excludeList x ms = .ok xs ∧ allLeaves xs = true ∧ M.semAll ev xs = semAllExcept ev x ms :=
-  excludeList_leaves ev x ms hl
+    ∃ xs, M.excludeList x ms = .ok xs ∧ allLeaves xs = true ∧ M.semAll ev xs = semAllExcept ev x ms := by
+  obtain ⟨xs, h1, h2, _, h3⟩ := excludeList_leaves ev (fun _ => True) x ms hl (M.goodAll_trivial ms)
+  exact ⟨xs, h1, h2, h3⟩
 
 /-- `without_extras` is `exclude("extra")` -/
 theorem without_extras_eq (m : M) : M.withoutExtras m = M.exclude "extra" m := rfl
@@ -138,13 +140,15 @@ def C17_exclude_conj_full_statement : Prop :=
 
 /-- **reduction by a Python range is exact on every environment whose interpreter lies in the range**:
 structural induction over `reduce_by_python_constraint`, including the `MarkerUnion` shortcut and the three
-answers of `SingleMarker.reduce_by_python_constraint`.  `ReduceCtx ev pc py` collects, at the environment
-under consideration (leaf truth `ev`, interpreter `py`, `pc.allows py`), what is used from C07 (`of`,
-`intersect` soundness), C11 (`pyConstraint_exact` for leaves and python-only markers, `createNested_exact`
-through `parse_marker`) and C12 (`allows_all` yes / `allows_any` no soundness at `py`). -/
-theorem reduce_exact_partial (ev : Leaf → Bool) (pc : VC) (py : Version) (C : ReduceCtx ev pc py)
-    (m r : M) (h : M.reduce pc m = .ok r) : M.sem ev r = M.sem ev m :=
-  reduce_exact_aux C m r h
+answers of `SingleMarker.reduce_by_python_constraint`; C07's `of` / `intersect` soundness is used as proved.
+`ReduceCtx ev G pc py` collects, at the environment under consideration (leaf truth `ev`, interpreter `py`
+with `pc.allows py`), the leaf specification and what is used from C11 (`pyConstraint_exact` for leaves and
+python-only markers, `createNested_exact` through `parse_marker`), C12 (`allows_all` yes / `allows_any` no
+soundness at `py`) and the variable bookkeeping of the `of` constructors. -/
+theorem reduce_exact_partial {ev : Leaf → Bool} {G : Leaf → Prop} (pc : VC) (py : Version)
+    (C : ReduceCtx ev G pc py) (m r : M) (hg : M.Good G m) (h : M.reduce pc m = .ok r) :
+    M.Good G r ∧ M.sem ev r = M.sem ev m :=
+  reduce_exact_aux C m r hg h
 
 /-- a leaf on another variable is returned unchanged, whatever the range -/
 example (pc : VC) : M.reduce pc (.leaf lSys) = .ok (.leaf lSys) := rfl
